@@ -38,7 +38,7 @@ theorem quic_stream_conds_src : quic_stream_conds = "err != nil | !validQUICMsg(
 theorem quic_servfail_args_src : quic_servfail_args = "msg, dns.RcodeServerFailure" := by decide
 theorem quic_valid_conds_src : quic_valid_conds = "opt != nil | option.Option() == dns.EDNS0TCPKEEPALIVE" := by decide
 /-- DNSCrypt: nothing written ⇒ synthesised SERVFAIL. -/
-theorem dnscrypt_conds_src : dnscrypt_conds = "!written" := by decide
+theorem dnscrypt_conds_src : dnscrypt_conds = "written" := by decide
 theorem dnscrypt_servfail_args_src : dnscrypt_servfail_args = "r, dns.RcodeServerFailure" := by decide
 /-- DoH: bad request ⇒ 400, nothing written ⇒ 500. -/
 theorem doh_conds_src : doh_conds = "err != nil | !written | err != nil" := by decide
@@ -62,6 +62,6 @@ theorem doh_write_life_src : doh_write_life = "normalizeTCP,Pack,dnsMsgToJSON,Wr
 /-- DoQ: normalise, pack, write to the stream, then dispose. -/
 theorem quic_life_src : quic_life = "serveDNSMsg,Msg,normalizeTCP,packWithPrefix,Write,Dispose" := by decide
 /-- DNSCrypt: normalise and hand to the library; never disposed of. -/
-theorem dnscrypt_life_src : dnscrypt_life = "serveDNSMsg,WriteMsg,Msg,normalize,WriteMsg" := by decide
+theorem dnscrypt_life_src : dnscrypt_life = "serveDNSMsg,Msg,normalize,WriteMsg" := by decide
 
 end Agd.Tie.C01
